@@ -26,6 +26,13 @@
 (* harness (harness/pkg/c20, func render), which is the trusted definition *)
 (* of "properly quoted literal".                                           *)
 (*                                                                         *)
+(* PROPERTY selects have one special position: a condition on `id`          *)
+(* (transformer.go extractIDsFromPredicate) is not a tag condition, its     *)
+(* values become the entries of QueryRequest.ids.  It binds like any other *)
+(* comparison value / IN element, but has rules of its own on the literal  *)
+(* statement: a string is taken as it is, an integer is written in decimal,*)
+(* NULL is refused ("ID cannot be NULL"), only = and IN exist.              *)
+(*                                                                         *)
 (* Integers are tokens (TLC has 32-bit integers): the harness concretises  *)
 (* "i32max" -> 2147483647 etc.; only their order matters here (IntToks).   *)
 (***************************************************************************)
@@ -111,22 +118,36 @@ CondsS == { Cond("s", "=", "one", <<StrL("lit")>>), Cond("s", "=", "one", <<PH>>
 CondsI == { Cond("i", ">", "one", <<IntL("3")>>), Cond("i", ">", "one", <<PH>>), Cond("i", "=", "one", <<PH>>),
             Cond("i", "IN", "many", <<PH, IntL("3")>>), Cond("i", "IN", "many", <<PH, PH>>),
             Cond("i", "HAVING", "one", <<PH>>), Cond("i", "HAVING", "many", <<PH, IntL("3")>>) }
+\* the `id` position of a PROPERTY select: id = v, id IN (..); literal, placeholder and mixed lists (a literal
+\* string before and a literal integer after the placeholder: an array parameter expands in the middle)
+CondsID == { Cond("id", "=", "one", <<PH>>), Cond("id", "=", "one", <<StrL("lit")>>),
+             Cond("id", "IN", "many", <<PH>>), Cond("id", "IN", "many", <<PH, PH>>),
+             Cond("id", "IN", "many", <<StrL("lit"), PH, IntL("3")>>) }
+\* the tag conditions an id condition is combined with (id first with a string tag, id second with an int tag)
+IdMatesS == { Cond("s", "=", "one", <<PH>>), Cond("s", "=", "one", <<StrL("lit")>>), Cond("s", "IN", "many", <<PH, PH>>) }
+IdMatesI == { Cond("i", ">", "one", <<PH>>), Cond("i", "IN", "many", <<PH, IntL("3")>>) }
 CompareOps == {"=", "!=", ">"}
 
 Wheres(joins) ==
        { [conds |-> <<>>, join |-> "AND"] }
   \cup { [conds |-> <<c>>, join |-> "AND"] : c \in CondsS \cup CondsI }
   \cup { [conds |-> <<c, d>>, join |-> j] : c \in CondsS, d \in CondsI, j \in joins }
+  \cup { [conds |-> <<c>>, join |-> "AND"] : c \in CondsID }
+  \cup { [conds |-> <<c, d>>, join |-> j] : c \in CondsID, d \in IdMatesS, j \in joins }
+  \cup { [conds |-> <<d, c>>, join |-> j] : d \in IdMatesI, c \in CondsID, j \in joins }
 
 LimOffs == { [l |-> None, f |-> None], [l |-> IntL("7"), f |-> None], [l |-> PH, f |-> None],
              [l |-> PH, f |-> PH], [l |-> IntL("7"), f |-> PH], [l |-> PH, f |-> IntL("3")] }
 Tops == {None, IntL("3"), PH}
+
+HasId(s) == \E j \in 1..Len(s.w.conds) : s.w.conds[j].tag = "id"
 
 \* a statement = [kind, top, time, w = [conds, join], order, lo = [l, f]]
 WellFormed(s) ==
   /\ s.kind \notin {"measure", "topn"} => s.top = None
   /\ s.kind = "topn" => s.top # None /\ s.lo = [l |-> None, f |-> None] /\ s.w.join = "AND"
   /\ s.kind = "property" => s.time.op = "none" /\ s.lo.f = None
+  /\ HasId(s) => s.kind = "property"          \* anywhere else `id` would be an ordinary (unknown) tag
 
 RawGrammar == [kind : Kinds, top : Tops, time : TimeForms, w : Wheres({"AND", "OR"}), order : {"none", "DESC"}, lo : LimOffs]
 
@@ -134,10 +155,12 @@ Grammar ==   \* (a filtered set of records: TLC enumerates it lazily, it is neve
   { s \in RawGrammar : WellFormed(s) }
 
 \* the well-formed statement nearest to an arbitrary combination of clauses (used to draw random statements)
+NoId(w) == LET cs == SelectSeq(w.conds, LAMBDA c : c.tag # "id")
+           IN [conds |-> cs, join |-> IF Len(cs) < 2 THEN "AND" ELSE w.join]
 Norm(r) ==
   [r EXCEPT !.top = IF r.kind \notin {"measure", "topn"} THEN None ELSE IF r.kind = "topn" /\ r.top = None THEN PH ELSE r.top,
             !.time = IF r.kind = "property" THEN [op |-> "none", args |-> <<>>] ELSE r.time,
-            !.w = IF r.kind = "topn" THEN [r.w EXCEPT !.join = "AND"] ELSE r.w,
+            !.w = IF r.kind = "topn" THEN [NoId(r.w) EXCEPT !.join = "AND"] ELSE IF r.kind = "property" THEN r.w ELSE NoId(r.w),
             !.lo = IF r.kind = "topn" THEN [l |-> None, f |-> None]
                    ELSE IF r.kind = "property" THEN [l |-> r.lo.l, f |-> None] ELSE r.lo]
 
@@ -229,7 +252,9 @@ Literalise(s, p) == Bind(s, p).lit      \* defined when Bind(s, p).ok
 \* ---- what the transformer checks on ANY literal statement (bound or written) ----
 CountOK(leaf, u32) == leaf = None \/ (leaf.t = "int" /\ IF u32 THEN FitsU32(leaf.v) ELSE FitsI32(leaf.v))
 TimeOK(leaf) == leaf.t = "str" /\ leaf.v \in TimeTexts
-ValOK(tag, leaf) == leaf.t \in {"int", "null"} \/ (leaf.t = "str" /\ (tag = "s" \/ leaf.v \in IntTexts))
+\* (an ID is any string, or an integer that is written in decimal; "ID cannot be NULL")
+ValOK(tag, leaf) == IF tag = "id" THEN leaf.t \in {"str", "int"}
+                    ELSE leaf.t \in {"int", "null"} \/ (leaf.t = "str" /\ (tag = "s" \/ leaf.v \in IntTexts))
 CondOK(c) ==
   CASE c.op \in CompareOps -> ValOK(c.tag, c.args[1])
     [] c.op = "MATCH" -> \A j \in 1..Len(c.args) : c.args[j] # Null                  \* any value, taken as text
@@ -241,9 +266,14 @@ LitCheck(l) ==
   /\ \A j \in 1..Len(l.w.conds) : CondOK(l.w.conds[j])
 
 \* ---- shape: everything but the values ----
-Shape(l) == [kind |-> l.kind, top |-> l.top # None, time |-> l.time.op,
-             where |-> [j \in 1..Len(l.w.conds) |-> [tag |-> l.w.conds[j].tag, op |-> l.w.conds[j].op]],
-             join |-> l.w.join, order |-> l.order, limit |-> l.lo.l # None, offset |-> l.lo.f # None]
+\* (the conditions on tags become the criteria tree, the conditions on `id` the list of IDs: two places in the
+\*  native request, each in textual order; join is the connective of the criteria, void with fewer than two)
+Shape(l) == LET cc == SelectSeq(l.w.conds, LAMBDA c : c.tag # "id")
+                ic == SelectSeq(l.w.conds, LAMBDA c : c.tag = "id")
+            IN [kind |-> l.kind, top |-> l.top # None, time |-> l.time.op,
+                where |-> [j \in 1..Len(cc) |-> [tag |-> cc[j].tag, op |-> cc[j].op]],
+                ids |-> [j \in 1..Len(ic) |-> ic[j].op],
+                join |-> l.w.join, order |-> l.order, limit |-> l.lo.l # None, offset |-> l.lo.f # None]
 
 Rejected(why) == [rej |-> why]
 Outcome(tmpl, p) ==
@@ -258,7 +288,7 @@ Outcome(tmpl, p) ==
 Base(slot, i) ==
   CASE slot.k \in {"count32", "countu32"} -> IntL(IF i % 2 = 1 THEN "3" ELSE "7")
     [] slot.k = "time" -> StrL(IF i % 2 = 1 THEN "2026-02-03T04:05:06Z" ELSE "2026-03-01T00:00:00Z")
-    [] OTHER -> IF slot.tag = "s" THEN StrL(<<"b1", "b2", "b3", "b4", "b5", "b6">>[((i - 1) % 6) + 1])
+    [] OTHER -> IF slot.tag \in {"s", "id"} THEN StrL(<<"b1", "b2", "b3", "b4", "b5", "b6">>[((i - 1) % 6) + 1])
                 ELSE IntL(IF i % 2 = 1 THEN "7" ELSE "3")
 
 BaseVector(s) == [i \in 1..NumSlots(s) |-> Base(Slots(s)[i], i)]
@@ -339,7 +369,9 @@ Accept(slot, p) ==
   CASE slot.k = "count32"  -> p.t = "int" /\ FitsI32(p.v)
     [] slot.k = "countu32" -> p.t = "int" /\ FitsU32(p.v)
     [] slot.k = "time"     -> (p.t = "str" /\ p.v \in TimeTexts) \/ (p.t = "ts" /\ p.v \in ValidTs)
+    [] slot.k = "scalar" /\ slot.tag = "id" -> p.t \in {"str", "int"}                     \* id = ? : never NULL
     [] slot.k = "scalar"   -> p.t \in {"int", "null"} \/ (p.t = "str" /\ (slot.tag = "s" \/ p.v \in IntTexts))
+    [] slot.k = "list" /\ slot.tag = "id" -> p.t \in {"str", "int"} \/ (p.t \in {"strs", "ints"} /\ p.vs # <<>>)   \* id IN (?)
     [] slot.k = "list" /\ slot.op = "MATCH" -> p.t \in {"str", "int"} \/ (p.t \in {"strs", "ints"} /\ p.vs # <<>>)
     [] slot.k = "list"     -> \/ p.t = "int"
                               \/ p.t = "null" /\ slot.op = "HAVING" /\ slot.form = "one"
